@@ -23,12 +23,18 @@ const guard = 16
 func execMask(args []string) string {
 	key, data := unhx(args[0]), unhx(args[1])
 	var first []byte
-	for off := 0; off < 8; off++ {
+	for variant := 0; variant < 16; variant++ {
+		off := variant % 8
 		back := make([]byte, guard+off+len(data)+guard)
 		for i := range back {
 			back[i] = 0xA5
 		}
+		// variants 0..7: the slice's capacity ends with the buffer; 8..15: the slice has spare capacity reaching
+		// into the guard area (as a pooled frame buffer has), so a store "within capacity" past the end is visible
 		buf := back[guard+off : guard+off+len(data) : guard+off+len(data)]
+		if variant >= 8 {
+			buf = back[guard+off : guard+off+len(data)]
+		}
 		copy(buf, data)
 		k := append([]byte(nil), key...)
 		gws.VerifMaskXOR(buf, k)
@@ -45,7 +51,7 @@ func execMask(args []string) string {
 		if !bytes.Equal(k, key) {
 			return "key-modified"
 		}
-		if off == 0 {
+		if variant == 0 {
 			first = append([]byte(nil), buf...)
 		} else if !bytes.Equal(first, buf) {
 			return "offset-dependent off=" + strconv.Itoa(off)
@@ -215,4 +221,70 @@ func dedupInts(in []int) []int {
 		}
 	}
 	return out
+}
+
+// ---- limited (C13): the bounded copy loop of Decompress ----------------------------------------
+
+func init() {
+	register(&Suite{Name: "limited", Gen: genLimited, Exec: execLimited})
+}
+
+func execLimited(args []string) string {
+	limit, _ := strconv.Atoi(args[0])
+	var chunks []int
+	if args[1] != "." {
+		for _, f := range strings.Split(args[1], ",") {
+			n, _ := strconv.Atoi(f)
+			chunks = append(chunks, n)
+		}
+	}
+	w, cls, reads := gws.VerifLimitedCopy(limit, chunks, args[2] == "1", args[3] == "1")
+	obs := "."
+	if len(reads) > 0 {
+		obs = strings.Join(reads, ",")
+	}
+	// the size of each read is decided by bytes.Buffer.ReadFrom (spare capacity), not by the case: the
+	// reads actually served are the observation the model is run on
+	return strconv.Itoa(w) + " " + cls + "\t" + obs
+}
+
+func genLimited(g *Gen) {
+	emit := func(limit int, chunks []int, ewl, fae bool) {
+		parts := make([]string, len(chunks))
+		for i, c := range chunks {
+			parts[i] = strconv.Itoa(c)
+		}
+		cs := "."
+		if len(parts) > 0 {
+			cs = strings.Join(parts, ",")
+		}
+		g.Emit("limited %d %s %s %s", limit, cs, b2s(ewl), b2s(fae))
+	}
+	for _, limit := range []int{0, 1, 10, 1000, 32768, 32769, 100000} {
+		for _, total := range []int{0, 1, limit - 1, limit, limit + 1, limit + 32768, 3 * limit} {
+			if total < 0 {
+				continue
+			}
+			for _, ewl := range []bool{false, true} {
+				for _, fae := range []bool{false, true} {
+					emit(limit, []int{total}, ewl, fae)
+					if total >= 2 {
+						emit(limit, []int{total / 2, total - total/2}, ewl, fae)
+						emit(limit, []int{total - 1, 1}, ewl, fae)
+						emit(limit, []int{1, total - 1}, ewl, fae)
+					}
+				}
+			}
+		}
+	}
+	for i := 0; i < g.pick(300, 3000); i++ {
+		limit := g.R.Intn(200000)
+		var chunks []int
+		for j := 0; j < g.R.Intn(6); j++ {
+			chunks = append(chunks, g.R.Intn(1+limit/2+g.R.Intn(1+limit)))
+		}
+		emit(limit, chunks, g.R.Bool(), g.R.Intn(4) == 0)
+	}
+	emit(5, nil, false, false)
+	emit(5, nil, false, true)
 }
